@@ -24,8 +24,8 @@ for m in $NAMES; do
   rc=$?
   t1=$(date +%s)
   nv=$(grep -c '^VIOLATION' "/tmp/c16_selftest_$m.log")
-  camps=$(grep -o 'what: \[[a-z]* [a-z]*' "/tmp/c16_selftest_$m.log" | sed 's/what: \[//; s/ \([a-z]*\)$/:\1/' | sort | uniq -c | awk '{printf "%s(x%s) ", $2, $1}')
-  echo "$m: tier=$TIER exit=$rc violations=$nv pkgtests=$pk wall=$((t1-t0))s caught-by: $camps"
+  src=$(grep -m1 'findings-by-source' "/tmp/c16_selftest_$m.log" | sed 's/.*findings-by-source //; s/ (witnesses.*//')
+  echo "$m: tier=$TIER exit=$rc distinct-signatures=$nv pkgtests=$pk wall=$((t1-t0))s  sources: $src"
   grep -o '"branch": "[^"]*", "kind": "[^"]*"' "/tmp/c16_selftest_$m.log" | sort | uniq -c | sed 's/^/      /' | head -6
   git -C "$WT" checkout -q -- .
 done
